@@ -283,6 +283,81 @@ pub mod verif_h2fc {
     }
 }
 
+/// Verification hook (add-only, compiled only with `--cfg sozu_verif`): runs the
+/// real `H2BlockConverter` over a response body given as chunks, one
+/// `kawa.prepare` per entry of `windows` (the flow-control budget of that
+/// round), consuming the produced bytes between rounds like the write path does.
+/// No production code path uses this module.
+#[cfg(sozu_verif)]
+pub mod verif_c01 {
+    use kawa::{Block, Buffer, Chunk, Flags, Kawa, Kind, OutBlock, SliceBuffer, Store};
+
+    /// Returns, per round, the bytes pushed to `kawa.out` and the converter's
+    /// window after the round; then the sizes of the chunks still queued.
+    pub fn convert_body(
+        windows: &[i32],
+        max_frame_size: usize,
+        stream_id: u32,
+        chunks: &[Vec<u8>],
+        end_stream: bool,
+    ) -> (Vec<(Vec<u8>, i32)>, Vec<usize>) {
+        let mut encoder = loona_hpack::Encoder::new();
+        let mut storage = vec![0u8; 16];
+        let mut kawa = Kawa::new(Kind::Response, Buffer::new(SliceBuffer(&mut storage)));
+        for c in chunks {
+            kawa.blocks.push_back(Block::Chunk(Chunk {
+                data: Store::from_vec(c.clone()),
+            }));
+        }
+        if end_stream {
+            kawa.blocks.push_back(Block::Flags(Flags {
+                end_body: true,
+                end_chunk: false,
+                end_header: false,
+                end_stream: true,
+            }));
+        }
+        let mut rounds = Vec::new();
+        for w in windows {
+            let mut converter = super::converter::H2BlockConverter {
+                max_frame_size,
+                window: *w,
+                stream_id,
+                encoder: &mut encoder,
+                out: Vec::new(),
+                scheme: b"https",
+                lowercase_buf: Vec::new(),
+                cookie_buf: Vec::new(),
+                position_is_client: false,
+                incremental_mode: false,
+                incremental_peer_count: 0,
+                pending_table_size_update: None,
+                size_update_emitted: false,
+                pending_oversized_abort: false,
+            };
+            kawa.prepare(&mut converter);
+            let after = converter.window;
+            let mut out = Vec::new();
+            for block in kawa.out.iter() {
+                if let OutBlock::Store(store) = block {
+                    out.extend_from_slice(store.data(kawa.storage.buffer()));
+                }
+            }
+            kawa.consume(out.len());
+            rounds.push((out, after));
+        }
+        let left = kawa
+            .blocks
+            .iter()
+            .map(|b| match b {
+                Block::Chunk(Chunk { data }) => data.len(),
+                _ => usize::MAX,
+            })
+            .collect();
+        (rounds, left)
+    }
+}
+
 use crate::metrics::names;
 use crate::{
     BackendConnectionError, FrontendFromRequestError, L7ListenerHandler, L7Proxy, ListenerHandler,
